@@ -193,11 +193,14 @@ def task_apply(kind, fmt=None):
             from pyvc.numparse import float_val, int_val
             t = get_s(txt.term)
             run.oblige("C06|%s/takes-a-number" % label, implies(z3.Not(veto), z3.Or(is_real(val1), is_int(val1))))
-            if fmt and fmt.endswith("m"):
-                pass        # the sexagesimal value formula is C10's subject
-            else:
-                run.oblige("C06|%s/numerically-equal-to-the-text-sent" % label,
-                           implies(z3.Not(veto), z3.Or(z3.And(is_real(val1), get_x(val1) == float_val(t)), z3.And(is_int(val1), smt.get_i(val1) == int_val(t)))))
+            # a text in plain (integer / decimal) notation is taken at its value, whatever the property's display format;
+            # the value formula of sexagesimal texts and its sign convention are C10's subject
+            dg = z3.Plus(z3.Range("0", "9"))
+            plain = z3.Concat(z3.Option(z3.Union(z3.Re("-"), z3.Re("+"))),
+                              z3.Union(z3.Concat(dg, z3.Option(z3.Concat(z3.Re("."), z3.Star(z3.Range("0", "9"))))), z3.Concat(z3.Re("."), dg)))
+            run.oblige("C06|%s/numerically-equal-to-the-text-sent" % label,
+                       implies(z3.And(z3.Not(veto), z3.InRe(t, plain)),
+                               z3.Or(z3.And(is_real(val1), get_x(val1) == float_val(t)), z3.And(is_int(val1), smt.get_i(val1) == int_val(t)))))
         elif kind == "BLOB":
             from pyvc.stdlib_models import b64dec
             # the stored value is the BLOB object created from the payload
